@@ -102,6 +102,11 @@ CHECKS = {
             "The mock LiquidCrystal/LiquidCrystal_I2C keep the visible cols x rows cell matrix and flag any write outside it; after each generated operation both the firmware and the host LCD class dump the display and must agree cell for cell (rows holding a progress bar off a cell boundary may differ by one fill cell), progress fill must be monotone and saturating on both sides, the backlight pin must sit at (on ? brightness : 0) and createChar bytes must equal the host's glyphs.",
             "Printable ASCII texts only; in-range row/col; mock models the visible window only.",
             "DESIGN.md 3/C17"),
+    "C18": ("exploration",
+            "generated animation sketches run for 3*bound+6 passes under generated per-pass clock increments (harness-owned virtual clock) with trace invariants; generated animate/tick(now) histories on the host LCD with the same invariants after every call",
+            "Device: no delay from animate or ticks, all display traffic before the first user statement of each pass, frames confined to their row and clearing exactly cols cells, at most one step per pass, non-looping animations silent after a linear number of frames, looping ones still stepping in the last third of the run, steps >= speed_ms apart once millis() > 0. Host: tick never raises for non-decreasing positive timestamps, rows keep their length, only animated rows change, the same termination / looping / rate rules.",
+            "Liveness is bounded termination with bound 2*(len+cols)+4; animations started inside the main loop are a recorded finding.",
+            "DESIGN.md 3/C18"),
 }
 
 PENDING = {}
